@@ -122,8 +122,14 @@ enum Kind {
     SeqI,
     /// from-import + macro call
     SeqM,
+    /// macro whose failure is swallowed by the Rust function that called it (`try_call`)
+    TMac,
+    /// call block whose `caller()` is invoked through `try_call` inside the macro
+    TCal,
+    /// block rendered through `State::render_block` by a function that swallows the error
+    TBlk,
 }
-const KINDS: [(Kind, &str); 22] = [
+const KINDS: [(Kind, &str); 25] = [
     (Kind::For, "for"),
     (Kind::ForE, "fore"),
     (Kind::ForEl, "forEl"),
@@ -146,6 +152,9 @@ const KINDS: [(Kind, &str); 22] = [
     (Kind::SeqL, "seqL"),
     (Kind::SeqI, "seqI"),
     (Kind::SeqM, "seqM"),
+    (Kind::TMac, "tmac"),
+    (Kind::TCal, "tcal"),
+    (Kind::TBlk, "tblk"),
 ];
 
 #[derive(Clone, Copy, PartialEq, Eq, Debug)]
@@ -157,9 +166,13 @@ enum Leaf {
     Cont,
     Rec,
     RecF,
+    /// the body fails at run time here
+    Fail,
+    /// the body fails in the iteration where `x == k`
+    FailK,
 }
-const LEAVES: [(Leaf, &str); 6] =
-    [(Leaf::T, "T"), (Leaf::Empty, "empty"), (Leaf::Brk, "brk"), (Leaf::Cont, "cont"), (Leaf::Rec, "rec"), (Leaf::RecF, "recf")];
+const LEAVES: [(Leaf, &str); 8] =
+    [(Leaf::Fail, "fail"), (Leaf::FailK, "failk"), (Leaf::T, "T"), (Leaf::Empty, "empty"), (Leaf::Brk, "brk"), (Leaf::Cont, "cont"), (Leaf::Rec, "rec"), (Leaf::RecF, "recf")];
 
 #[derive(Clone, Debug)]
 struct Shape {
@@ -187,13 +200,22 @@ impl Shape {
         matches!(k, Kind::For | Kind::ForE | Kind::ForEl | Kind::ForF | Kind::ForR)
     }
     fn is_boundary(k: Kind) -> bool {
-        matches!(k, Kind::Mac | Kind::Call | Kind::Blk)
+        matches!(k, Kind::Mac | Kind::Call | Kind::Blk | Kind::TMac | Kind::TCal | Kind::TBlk)
+    }
+    fn is_try(k: Kind) -> bool {
+        matches!(k, Kind::TMac | Kind::TCal | Kind::TBlk)
     }
     /// is the leaf admissible at the end of this chain of kinds?
     fn admissible(&self) -> bool {
         // blocks are not allowed inside macros / call blocks; a block name may appear once
         match self.leaf {
             Leaf::T | Leaf::Empty => true,
+            // a failure is only interesting when something swallows it and rendering goes on
+            Leaf::Fail => self.kinds.iter().any(|k| Shape::is_try(*k)),
+            Leaf::FailK => {
+                self.kinds.iter().any(|k| Shape::is_try(*k))
+                    && self.kinds.iter().any(|k| matches!(k, Kind::For | Kind::ForE | Kind::ForF))
+            }
             Leaf::Brk | Leaf::Cont => {
                 // lexically inside a `for` statement (body or else) with no macro/call/block between
                 for k in self.kinds.iter().rev() {
@@ -262,11 +284,48 @@ impl Shape {
             Leaf::RecF => "recurse-captured".into(),
             Leaf::T => "plain".into(),
             Leaf::Empty => "empty-body".into(),
+            Leaf::Fail | Leaf::FailK => {
+                // the innermost construct that swallows the failure and what lies between
+                let mut between: Vec<&str> = vec![];
+                let mut catcher = "none";
+                for k in self.kinds.iter().rev() {
+                    match k {
+                        Kind::TMac => {
+                            catcher = "macro";
+                            break;
+                        }
+                        Kind::TCal => {
+                            catcher = "caller";
+                            break;
+                        }
+                        Kind::TBlk => {
+                            catcher = "block";
+                            break;
+                        }
+                        Kind::With => between.push("with"),
+                        Kind::Set | Kind::Filt => between.push("capture"),
+                        Kind::Ae0 | Kind::Ae1 => between.push("autoescape"),
+                        Kind::For | Kind::ForE | Kind::ForF | Kind::ForR => between.push("loop"),
+                        Kind::Mac | Kind::Call => between.push("macro"),
+                        Kind::Blk => between.push("block"),
+                        Kind::SeqI => between.push("include"),
+                        _ => {}
+                    }
+                }
+                between.sort();
+                between.dedup();
+                if between.is_empty() {
+                    format!("error-swallowed-{}", catcher)
+                } else {
+                    format!("error-swallowed-{}-inside-{}", catcher, between.join("+"))
+                }
+            }
         }
     }
 
     fn source(&self) -> String {
         let mut s = String::new();
+        s.push_str("{% set g = 'G' %}");
         s.push_str(&piece_src(0, 'S'));
         self.src_at(0, &mut s);
         s.push_str(&piece_src(0, 'Z'));
@@ -280,6 +339,8 @@ impl Shape {
                 Leaf::Cont => "{% continue %}",
                 Leaf::Rec => "{{ loop(x) }}",
                 Leaf::RecF => "{{ loop(x)|fz }}",
+                Leaf::Fail => "{{ fail() }}",
+                Leaf::FailK => "{{ failif(x == k) }}",
             });
             return;
         }
@@ -325,14 +386,28 @@ impl Shape {
             Kind::SeqL => write!(s, "{{% for y in [1] %}}{a}{{% endfor %}}{child}{c}"),
             Kind::SeqI => write!(s, "{{% include 'inc.txt' %}}{{% include 'inc.html' %}}{child}{c}"),
             Kind::SeqM => write!(s, "{{% from 'lib.txt' import lm %}}{{{{ lm(1) }}}}{child}{c}"),
+            Kind::TMac => write!(
+                s,
+                "{{% macro n{d}(ma) %}}{a}{child}{b}{{% endmacro %}}{{{{ try_call(n{d}, 'a{d}') }}}}{c}"
+            ),
+            Kind::TCal => write!(
+                s,
+                "{{% macro r{d}() %}}(({{{{ try_call(caller) }}}})){{% endmacro %}}{{% call r{d}() %}}{a}{child}{b}{{% endcall %}}{c}"
+            ),
+            Kind::TBlk => write!(
+                s,
+                "{{% if false %}}{{% block t{d} %}}{a}{child}{b}{{% endblock %}}{{% endif %}}{{{{ try_block('t{d}') }}}}{c}"
+            ),
         }
         .unwrap();
     }
 }
 
-/// sentinel: text, auto-escape probe, scope probe
+/// sentinel: text, auto-escape probe, scope probes (`w`: innermost with-variable, `g`: variable
+/// of the template's root frame, `ma`: argument of the innermost try-called macro), execution
+/// state probe (template name and current block as the engine's `State` reports them)
 fn piece_src(d: usize, tag: char) -> String {
-    format!("[{d}{tag}]{{{{ h }}}}{{{{ w|default('-') }}}}")
+    format!("[{d}{tag}]{{{{ h }}}}{{{{ w|default('-') }}}}{{{{ g }}}}{{{{ ma|default('') }}}}{{{{ probe() }}}}")
 }
 
 // ------------------------------------------------------------------------------------------
@@ -350,6 +425,10 @@ struct Scope {
     ae: bool,
     w: Option<usize>,
     x: XVal,
+    /// argument of the innermost try-called macro that is lexically visible
+    ma: Option<usize>,
+    /// the current block as `State::current_block` reports it
+    block: Option<String>,
 }
 
 #[derive(Clone, Copy, PartialEq, Eq, Debug)]
@@ -357,6 +436,8 @@ enum Flow {
     Normal,
     Break,
     Continue,
+    /// a run-time error travelling up to whoever swallows it
+    Fail,
 }
 
 #[derive(Clone, Debug)]
@@ -384,6 +465,11 @@ impl Spec<'_> {
             Some(d) => write!(out, "w{d}").unwrap(),
             None => out.push('-'),
         }
+        out.push('G');
+        if let Some(d) = sc.ma {
+            write!(out, "a{d}").unwrap();
+        }
+        write!(out, "shape.txt~{}", sc.block.as_deref().unwrap_or("-")).unwrap();
     }
 
     fn tree() -> Vec<XVal> {
@@ -410,12 +496,15 @@ impl Spec<'_> {
 
     /// runs the loop at chain position i over items (body = A child B); returns whether the
     /// engine's "did not iterate" flag would be set, both ways
-    fn run_loop(&mut self, i: usize, items: &[XVal], sc: &Scope, out: &mut String) -> bool {
+    fn run_loop(&mut self, i: usize, items: &[XVal], sc: &Scope, out: &mut String) -> (bool, Flow) {
         let mut else_runs = items.is_empty();
         for (n, item) in items.iter().enumerate() {
             let mut inner = sc.clone();
             inner.x = item.clone();
             let f = self.body(i, 'A', 'B', &inner, out);
+            if f == Flow::Fail {
+                return (false, Flow::Fail);
+            }
             if f == Flow::Break {
                 if n == 0 && self.p.else_after_first_break {
                     else_runs = true;
@@ -423,7 +512,7 @@ impl Spec<'_> {
                 break;
             }
         }
-        else_runs
+        (else_runs, Flow::Normal)
     }
 
     fn node(&mut self, i: usize, sc: &Scope, out: &mut String) -> Flow {
@@ -432,6 +521,14 @@ impl Spec<'_> {
                 Leaf::T | Leaf::Empty => Flow::Normal,
                 Leaf::Brk => Flow::Break,
                 Leaf::Cont => Flow::Continue,
+                Leaf::Fail => Flow::Fail,
+                Leaf::FailK => {
+                    if sc.x == XVal::Int(self.p.k) {
+                        Flow::Fail
+                    } else {
+                        Flow::Normal
+                    }
+                }
                 Leaf::Rec | Leaf::RecF => {
                     // position of the innermost recursive loop
                     let j = (0..self.shape.kinds.len()).rev().find(|j| self.shape.kinds[*j] == Kind::ForR).unwrap();
@@ -442,10 +539,16 @@ impl Spec<'_> {
                     // the recursion runs in the scope of the call site
                     if self.shape.leaf == Leaf::RecF {
                         let mut buf = String::new();
-                        self.run_loop(j, &items, sc, &mut buf);
+                        let (_, f) = self.run_loop(j, &items, sc, &mut buf);
+                        if f == Flow::Fail {
+                            return f;
+                        }
                         write!(out, "({})", buf).unwrap();
                     } else {
-                        self.run_loop(j, &items, sc, out);
+                        let (_, f) = self.run_loop(j, &items, sc, out);
+                        if f == Flow::Fail {
+                            return f;
+                        }
                     }
                     Flow::Normal
                 }
@@ -455,17 +558,30 @@ impl Spec<'_> {
         let xs: Vec<XVal> = self.p.xs.iter().map(|v| XVal::Int(*v)).collect();
         match self.shape.kinds[i] {
             Kind::For => {
-                self.run_loop(i, &xs, sc, out);
+                let (_, f) = self.run_loop(i, &xs, sc, out);
+                if f == Flow::Fail {
+                    return f;
+                }
             }
             Kind::ForF => {
                 let items: Vec<XVal> = xs.into_iter().filter(|v| *v != XVal::Int(2)).collect();
-                self.run_loop(i, &items, sc, out);
+                let (_, f) = self.run_loop(i, &items, sc, out);
+                if f == Flow::Fail {
+                    return f;
+                }
             }
             Kind::ForR => {
-                self.run_loop(i, &Spec::tree(), sc, out);
+                let (_, f) = self.run_loop(i, &Spec::tree(), sc, out);
+                if f == Flow::Fail {
+                    return f;
+                }
             }
             Kind::ForE => {
-                if self.run_loop(i, &xs, sc, out) {
+                let (else_runs, f) = self.run_loop(i, &xs, sc, out);
+                if f == Flow::Fail {
+                    return f;
+                }
+                if else_runs {
                     self.piece(d, 'E', sc, out);
                 }
             }
@@ -534,10 +650,47 @@ impl Spec<'_> {
                 }
             }
             Kind::Mac | Kind::Blk => {
-                let f = self.body(i, 'A', 'B', sc, out);
+                let mut inner = sc.clone();
+                inner.block = if self.shape.kinds[i] == Kind::Blk { Some(format!("b{d}")) } else { None };
+                // a macro writes into its own buffer, which is dropped when it fails
+                let mut buf = String::new();
+                let f = self.body(i, 'A', 'B', &inner, &mut buf);
+                if f == Flow::Fail {
+                    return f;
+                }
+                out.push_str(&buf);
                 if f != Flow::Normal {
                     self.stray = true;
                 }
+            }
+            Kind::TMac | Kind::TBlk => {
+                let mut inner = sc.clone();
+                if self.shape.kinds[i] == Kind::TMac {
+                    inner.ma = Some(d);
+                    inner.block = None;
+                } else {
+                    inner.block = Some(format!("t{d}"));
+                }
+                let mut buf = String::new();
+                let f = self.body(i, 'A', 'B', &inner, &mut buf);
+                match f {
+                    Flow::Fail => out.push_str("!E"),
+                    Flow::Normal => out.push_str(&buf),
+                    _ => self.stray = true,
+                }
+            }
+            Kind::TCal => {
+                let mut inner = sc.clone();
+                inner.block = None;
+                let mut buf = String::new();
+                let f = self.body(i, 'A', 'B', &inner, &mut buf);
+                out.push_str("((");
+                match f {
+                    Flow::Fail => out.push_str("!E"),
+                    Flow::Normal => out.push_str(&buf),
+                    _ => self.stray = true,
+                }
+                out.push_str("))");
             }
             Kind::SeqW | Kind::SeqS | Kind::SeqA | Kind::SeqL => {
                 let mut inner = sc.clone();
@@ -561,12 +714,17 @@ impl Spec<'_> {
                 }
             }
             Kind::Call => {
-                out.push_str("((");
-                let f = self.body(i, 'A', 'B', sc, out);
+                let mut inner = sc.clone();
+                inner.block = None;
+                let mut buf = String::new();
+                let f = self.body(i, 'A', 'B', &inner, &mut buf);
+                if f == Flow::Fail {
+                    return f;
+                }
+                write!(out, "(({}))", buf).unwrap();
                 if f != Flow::Normal {
                     self.stray = true;
                 }
-                out.push_str("))");
             }
         }
         self.piece(d, 'C', sc, out);
@@ -575,10 +733,13 @@ impl Spec<'_> {
 
     fn run(shape: &Shape, p: &Params) -> Option<String> {
         let mut sp = Spec { shape, p, stray: false };
-        let sc = Scope { ae: false, w: None, x: XVal::Undef };
+        let sc = Scope { ae: false, w: None, x: XVal::Undef, ma: None, block: None };
         let mut out = String::new();
         sp.piece(0, 'S', &sc, &mut out);
         let f = sp.node(0, &sc, &mut out);
+        if f == Flow::Fail && !sp.stray {
+            return Some("!RENDER-ERROR".to_string()); // nothing swallowed the failure
+        }
         if f != Flow::Normal || sp.stray {
             return None; // break/continue with no enclosing loop: no reference behaviour
         }
@@ -608,6 +769,42 @@ fn shape_env() -> Environment<'static> {
         } else {
             Value::from(s)
         }
+    });
+    env.add_function("fail", || -> Result<Value, minijinja::Error> {
+        Err(minijinja::Error::new(minijinja::ErrorKind::InvalidOperation, "boom"))
+    });
+    env.add_function("failif", |c: bool| -> Result<Value, minijinja::Error> {
+        if c {
+            Err(minijinja::Error::new(minijinja::ErrorKind::InvalidOperation, "boom"))
+        } else {
+            Ok(Value::from(""))
+        }
+    });
+    // the recover-and-keep-rendering pattern: a Rust function that runs a nested evaluation on
+    // the caller's State and swallows its failure
+    env.add_function(
+        "try_call",
+        |state: &mut minijinja::State, f: Value, args: minijinja::value::Rest<Value>| -> Value {
+            match f.call(state, &args[..]) {
+                Ok(rv) => rv,
+                Err(_) => Value::from("!E"),
+            }
+        },
+    );
+    env.add_function("try_block", |state: &mut minijinja::State, name: String| -> Value {
+        match state.render_block(&name) {
+            Ok(rv) => {
+                if matches!(state.auto_escape(), minijinja::AutoEscape::None) {
+                    Value::from(rv)
+                } else {
+                    Value::from_safe_string(rv)
+                }
+            }
+            Err(_) => Value::from("!E"),
+        }
+    });
+    env.add_function("probe", |state: &minijinja::State| -> String {
+        format!("{}~{}", state.name(), state.current_block().unwrap_or("-"))
     });
     env.add_template(
         "inc.txt",
@@ -662,10 +859,44 @@ fn subsequence(spec: &str, got: &str) -> bool {
     i == want.len()
 }
 
+fn nested_text(ms: &[balance::NestedMismatch]) -> String {
+    ms.iter()
+        .map(|m| {
+            let mut d: Vec<String> = vec![];
+            if m.before.frames != m.after.frames {
+                d.push(format!("frames {}->{}", m.before.frames, m.after.frames));
+            }
+            if m.before.depth != m.after.depth {
+                d.push(format!("depth {}->{}", m.before.depth, m.after.depth));
+            }
+            if m.before.instructions != m.after.instructions {
+                d.push(format!("instructions {}->{}", m.before.name, m.after.name));
+            }
+            if m.before.auto_escape != m.after.auto_escape {
+                d.push(format!("esc {:?}->{:?}", m.before.auto_escape, m.after.auto_escape));
+            }
+            if m.before.current_block != m.after.current_block {
+                d.push(format!("block {:?}->{:?}", m.before.current_block, m.after.current_block));
+            }
+            if m.before.blocks != m.after.blocks || m.before.block_stacks != m.after.block_stacks {
+                d.push(format!(
+                    "blocks {}/{}->{}/{}",
+                    m.before.blocks, m.before.block_stacks, m.after.blocks, m.after.block_stacks
+                ));
+            }
+            if m.before.loaded_templates != m.after.loaded_templates {
+                d.push(format!("loaded {}->{}", m.before.loaded_templates, m.after.loaded_templates));
+            }
+            format!("{}:{}:{}", m.kind, if m.ok { "ok" } else { "err" }, d.join(","))
+        })
+        .collect::<Vec<_>>()
+        .join(";")
+}
+
 fn params_for(shape: &Shape) -> Vec<Params> {
     let uses_xs = shape.kinds.iter().any(|k| matches!(k, Kind::For | Kind::ForE | Kind::ForEl | Kind::ForF));
     let uses_c = shape.kinds.iter().any(|k| matches!(k, Kind::IfC | Kind::IfEl));
-    let uses_k = shape.kinds.iter().any(|k| matches!(k, Kind::IfK));
+    let uses_k = shape.kinds.iter().any(|k| matches!(k, Kind::IfK)) || shape.leaf == Leaf::FailK;
     let mut v = vec![];
     for xs in if uses_xs { vec![vec![], vec![1, 2, 3]] } else { vec![vec![1, 2, 3]] } {
         for c in if uses_c { vec![true, false] } else { vec![true] } {
@@ -689,23 +920,33 @@ fn run_dynamic(env: &Environment<'_>, tmpl_name: &str, shape: &Shape, p: &Params
     let spec_b = Spec::run(shape, &p2);
     let _ = balance::take_mismatches();
     let _ = balance::take_counters();
+    let _ = balance::take_nested_mismatches();
+    let _ = balance::take_nested_counters();
     let ctx = engine_ctx(p);
     let res = guarded(|| {
         let t = env.get_template(tmpl_name).unwrap();
         t.render(ctx)
     });
     let ms = balance::take_mismatches();
+    let nms = balance::take_nested_mismatches();
     let (started, finished) = balance::take_counters();
+    let (nested_ok, nested_err) = balance::take_nested_counters();
     if verbose {
-        eprintln!("ctx {}:\n  engine: {:?}\n  spec:   {:?}\n  spec':  {:?}\n  activations {} normal exits {} mismatches [{}]",
-            params_name(p), res, spec_a, spec_b, started, finished, mismatch_text(&ms));
+        eprintln!("ctx {}:\n  engine: {:?}\n  spec:   {:?}\n  spec':  {:?}\n  activations {} normal exits {} mismatches [{}]\n  nested evaluations ok {} failed {} not restored [{}]",
+            params_name(p), res, spec_a, spec_b, started, finished, mismatch_text(&ms), nested_ok, nested_err, nested_text(&nms));
     }
     let mut fails: Vec<String> = vec![];
     if !ms.is_empty() {
         fails.push(format!("depth-mismatch[{}]", mismatch_text(&ms)));
     }
+    if !nms.is_empty() {
+        fails.push(format!("nested-not-restored[{}]", nested_text(&nms)));
+    }
+    let expects_failures = matches!(shape.leaf, Leaf::Fail | Leaf::FailK);
     match (&res, &spec_a) {
         (Err(_), _) => fails.push(format!("panic@{}", last_panic_location())),
+        (Ok(Err(_)), Some(a)) if a == "!RENDER-ERROR" => {}
+        (Ok(Ok(got)), Some(a)) if a == "!RENDER-ERROR" => fails.push(format!("output[{}]expected[render error]", got)),
         (Ok(_), None) => {
             if fails.is_empty() {
                 return "skip:stray-loop-control".into();
@@ -719,7 +960,7 @@ fn run_dynamic(env: &Environment<'_>, tmpl_name: &str, shape: &Shape, p: &Params
                 && (subsequence(a, got) || spec_b.as_ref().map_or(false, |b| subsequence(b, got)));
             if got != a && Some(got) != spec_b.as_ref() && !tolerant {
                 fails.push(format!("output[{}]expected[{}]", got, a));
-            } else if started != finished {
+            } else if started != finished && !expects_failures {
                 fails.push(format!("activations {} exits {}", started, finished));
             }
         }
@@ -997,6 +1238,34 @@ fn do_extras(out: &mut impl std::io::Write) {
             "[([()])][()]Z",
         ),
         (
+            // a failing include inside a block rendered (and forgiven) 80 times: the include's
+            // recursion cost, closure, frames, auto-escape, block table come back every time
+            "extra:try-block-include-fail",
+            vec![
+                ("bad.html", "{% with y = 1 %}{% autoescape false %}{% set c %}x{% for i in [1] %}{{ fail() }}{% endfor %}{% endset %}{% endautoescape %}{% endwith %}"),
+                ("main.txt", "{% set g = 'G' %}{% if false %}{% block b %}{% with z = 1 %}{% include 'bad.html' %}{% endwith %}{% endblock %}{% endif %}{% for i in range(80) %}{{ try_block('b') }}{% endfor %}|{{ probe() }}{{ g }}{{ z is defined }}{{ y is defined }}{{ '<' }}Z"),
+            ],
+            "!E!E!E!E!E!E!E!E!E!E!E!E!E!E!E!E!E!E!E!E!E!E!E!E!E!E!E!E!E!E!E!E!E!E!E!E!E!E!E!E!E!E!E!E!E!E!E!E!E!E!E!E!E!E!E!E!E!E!E!E!E!E!E!E!E!E!E!E!E!E!E!E!E!E!E!E!E!E!E!E|main.txt~-GFalseFalse<Z",
+        ),
+        (
+            // super() into a failing parent block, forgiven by the function that rendered the block
+            "extra:try-block-super-fail",
+            vec![
+                ("base.txt", "{% if false %}{% block b %}{% with p = 1 %}{{ fail() }}{% endwith %}{% endblock %}{% endif %}{% for i in [1, 2] %}{{ try_block('b') }}{% endfor %}|{{ probe() }}{{ q is defined }}{{ p is defined }}Z"),
+                ("main.txt", "{% extends 'base.txt' %}{% block b %}{% with q = 1 %}<{{ super() }}>{% set v = super() %}{% endwith %}{% endblock %}"),
+            ],
+            "!E!E|base.txt~-FalseFalseZ",
+        ),
+        (
+            // a macro that fails inside an include inside a loop, after opening scopes of its own
+            "extra:try-call-include-fail",
+            vec![
+                ("bad.html", "{% with y = 1 %}{% set c %}x{{ fail() }}{% endset %}{% endwith %}"),
+                ("main.txt", "{% set g = 'G' %}{% macro m(a) %}{% with z = a %}{% for i in [1, 2] %}{% autoescape true %}{% if i == 2 %}{% include 'bad.html' %}{% endif %}{{ i }}{% endautoescape %}{% endfor %}{% endwith %}{% endmacro %}{% with o = 'O' %}{% for k in [1, 2] %}[{{ try_call(m, k) }}{{ o }}{{ g }}{{ a is defined }}{{ z is defined }}{{ '<' }}]{% endfor %}{% endwith %}{{ o is defined }}|{{ probe() }}Z"),
+            ],
+            "[!EOGFalseFalse<][!EOGFalseFalse<]False|main.txt~-Z",
+        ),
+        (
             "extra:recurse-from-block",
             vec![("main.txt", "{% for x in [[1]] recursive %}{% block b %}<{{ loop(x) }}>{% endblock %}{% endfor %}Z")],
             "!error",
@@ -1011,8 +1280,7 @@ fn do_extras(out: &mut impl std::io::Write) {
         ),
     ];
     for (case, tmpls, expected) in sets {
-        let mut env = Environment::new();
-        env.set_fuel(Some(200_000));
+        let mut env = shape_env();
         let mut ok = true;
         for (n, s) in &tmpls {
             if env.add_template_owned(n.to_string(), s.to_string()).is_err() {
@@ -1028,9 +1296,12 @@ fn do_extras(out: &mut impl std::io::Write) {
             dump_template(out, &format!("{}/{}", case, n), "extra", &t);
         }
         let _ = balance::take_mismatches();
+        let _ = balance::take_nested_mismatches();
         let res = guarded(|| env.get_template("main.txt").unwrap().render(()));
         let ms = balance::take_mismatches();
+        let nms = balance::take_nested_mismatches();
         let verdict = match res {
+            _ if !nms.is_empty() => format!("fail:nested-not-restored[{}]", nested_text(&nms)),
             Err(_) => format!("fail:panic@{}", last_panic_location()),
             Ok(Err(e)) if expected == "!error" && e.kind() != minijinja::ErrorKind::OutOfFuel && ms.is_empty() => {
                 "ok".to_string()
@@ -1089,8 +1360,13 @@ fn main() {
                     0 => if rng.chance(1, 2) { Leaf::T } else { Leaf::Empty },
                     1..=4 => Leaf::Brk,
                     5..=7 => Leaf::Cont,
-                    8 => Leaf::Rec,
-                    _ => Leaf::RecF,
+                    8 => match rng.below(4) {
+                        0 => Leaf::Rec,
+                        1 => Leaf::RecF,
+                        2 => Leaf::Fail,
+                        _ => Leaf::FailK,
+                    },
+                    _ => if rng.chance(1, 2) { Leaf::Fail } else { Leaf::FailK },
                 };
                 let s = Shape { kinds, leaf };
                 if s.admissible() && do_shape(&mut out, &s, false) {
